@@ -13,7 +13,8 @@ from engine.symex import SInt, SReal, And, Implies, ite, sym_int
 
 import aioslsk.network.rate_limiter as rl
 from aioslsk.network.network import Network
-from aioslsk.network.connection import PeerConnection
+from aioslsk.network.connection import PeerConnection, PeerConnectionState, PeerConnectionType, ConnectionState
+from engine.vloop import VLoop
 
 PROPERTY = 'C20'
 MINB = 128
@@ -36,6 +37,7 @@ class Env:
     also understands symbolic reals."""
 
     def __init__(self, symbolic: bool):
+        self.on_sleep = None
         self.now = None
         self.saved = {}
         self.symbolic = symbolic
@@ -280,6 +282,133 @@ def h_from_unlimited(c, k=3, new_kbps=1, direction='upload'):
 
 
 # ------------------------------------------------------------------------------
+# H2b: the bytes a real PeerConnection moves (send_file / receive_file) obey the limit that
+# is in force, for a connection in any peer-connection state at the time of the change
+# ------------------------------------------------------------------------------
+
+class _FakeWriter:
+    def __init__(self, log):
+        self.log = log
+
+    def write(self, data):
+        self.log.append(len(data))
+
+    async def drain(self):
+        return None
+
+    def is_closing(self):
+        return False
+
+    def close(self):
+        pass
+
+    async def wait_closed(self):
+        return None
+
+
+class _FakeReader:
+    def __init__(self, log):
+        self.log = log
+
+    async def read(self, n):
+        self.log.append(n)
+        return bytes(n)
+
+
+class _FakeFile:
+    def __init__(self, chunks):
+        self.left = chunks
+
+    async def read(self, n):
+        if self.left <= 0:
+            return b''
+        self.left -= 1
+        return bytes(n)
+
+    async def write(self, data):
+        return len(data)
+
+
+def h_conn(c, op='send', conn_state='NEGOTIATING_TRANSFER', old_kbps=0, new_kbps=1, when='before', sleeps=1):
+    """a file connection exists (in `conn_state`) while the limit is changed through the
+    real Network setter; afterwards the real send_file / receive_file runs on the
+    virtual loop.  Every suspension in take_tokens resumes at a fresh symbolic instant.
+    Obligation: bytes moved since the change obey the window bound of the new limit."""
+    hints(c, new_kbps * 1024, old_kbps * 1024)
+    direction = 'upload' if op == 'send' else 'download'
+    loop = VLoop()
+    with Env(c.symbolic) as env:
+        rl.__dict__['asyncio'] = types.SimpleNamespace(sleep=asyncio_sleep(loop))
+        fake_net = types.SimpleNamespace(_upload_rate_limiter=None, _download_rate_limiter=None, peer_connections=[])
+        conn = PeerConnection('1.2.3.4', 1234, fake_net, connection_type=PeerConnectionType.FILE)
+        conn.state = ConnectionState.CONNECTED
+        conn.connection_state = PeerConnectionState[conn_state]
+        moved = []
+        conn._writer = _FakeWriter(moved)
+        conn._reader = _FakeReader(moved)
+        setter = getattr(Network, f'set_{direction}_speed_limit')
+        setter(fake_net, old_kbps)
+        # what Network does when it accepts / finalises a peer connection (network.py: _finalize_peer_connection)
+        fake_net.peer_connections.append(conn)
+        conn.download_rate_limiter = fake_net._download_rate_limiter or conn.download_rate_limiter
+        conn.upload_rate_limiter = fake_net._upload_rate_limiter or conn.upload_rate_limiter
+        t0 = c.fresh_real('t_change', lo=0)
+        env.now = t0
+        old = getattr(fake_net, f'_{direction}_rate_limiter')
+        if type(old) is rl.LimitedRateLimiter:
+            # the old bucket is full and fresh (worst case for a hand-over); arbitrary buckets are H2's job
+            old.bucket, old.last_refill = old.limit_bps, t0
+            _arbitrary_aux_state(c, old, t0)
+        setter(fake_net, new_kbps)
+        L = new_kbps * 1024
+        times = [t0]
+
+        def on_sleep():
+            t = _clock(c, f't{len(times)}', times[-1])
+            times.append(t)
+            env.now = t
+
+        env.on_sleep = on_sleep
+        chunks = (L // MINB) + 4
+        if op == 'send':
+            coro = conn.send_file(_FakeFile(chunks))
+        else:
+            coro = conn.receive_file(_FakeFile(0), filesize=chunks * MINB)
+        task = loop.spawn(coro)
+        n_sleeps = 0
+        while not task.done():
+            loop.run_ready()
+            if task.done():
+                break
+            nt = loop.next_timer()
+            if nt is None:
+                raise symex.HarnessError('transfer coroutine blocked on something that is not the limiter')
+            if n_sleeps >= sleeps:
+                break
+            n_sleeps += 1
+            on_sleep()
+            loop.advance_to(nt)
+        c.reach('conn_end')
+        lim_now = getattr(conn, f'{direction}_rate_limiter')
+        c.check(lim_now is getattr(fake_net, f'_{direction}_rate_limiter'), 'connection_uses_current_limiter',
+                sig=[op, conn_state, old_kbps, new_kbps])
+        total = sum(moved)
+        pot = MINB * (lim_now.bucket // MINB) if (c.symbolic and type(lim_now) is rl.LimitedRateLimiter) else 0
+        c.check(_exact(total + pot) <= _exact(L) * (_exact(times[-1]) - _exact(t0)) + _exact(L), 'window_bound',
+                sig=['conn', op, conn_state, old_kbps, new_kbps], info={'moved': repr(total)})
+        task.cancel()
+        loop.cleanup()
+
+
+def asyncio_sleep(loop):
+    import asyncio as _a
+
+    def sleep(d):
+        return _a.sleep(d)
+    return sleep
+
+
+# ------------------------------------------------------------------------------
 # H3: unlimited never throttles; create_limiter chooses the class by the limit
 # ------------------------------------------------------------------------------
 
@@ -421,6 +550,11 @@ def jobs(tier):
                     'params': {'k': 3, 'kbps': 2, 'change_at': 1, 'new_kbps': 0, 'direction': d}, 'requires': ['changed_to_unlimited']})
         out.append({'harness': 'from_unlimited', 'fn': h_from_unlimited, 'params': {'k': 3, 'new_kbps': 1, 'direction': d},
                     'requires': ['window_end']})
+    for op in ('send', 'receive'):
+        for st in ('AWAITING_INIT', 'ESTABLISHED', 'NEGOTIATING_TRANSFER', 'TRANSFERRING'):
+            for (a, b) in ([(0, 1), (2, 1)] if q else [(0, 1), (2, 1), (1, 2), (1000, 1)]):
+                out.append({'harness': 'conn', 'fn': h_conn,
+                            'params': {'op': op, 'conn_state': st, 'old_kbps': a, 'new_kbps': b}, 'requires': ['conn_end']})
     # reachability of the refuting pre-states from the constructor state, through the public setters
     out.append({'harness': 'window', 'fn': h_window, 'params': {'k': k, 'kbps': 1, 'from_init': True}, 'requires': ['window_end']})
     out.append({'harness': 'window', 'fn': h_window,
